@@ -40,6 +40,9 @@ struct AgentSpec {
     quota: u32,       // chunks to send (the last one carries the FIN flag); 0 = silent
     peer_sends: bool, // keep dequeuing until the peer's FIN shows up
     slow_start_ms: u64,
+    /// back-pressure: do not start before agent `.0` has enqueued `.1` chunks (bounded wait), so that
+    /// this agent's egress queue (100) fills up and the demuxer has to block on it
+    lazy_until: Option<(u8, u32)>,
     seed: u64,
 }
 
@@ -115,7 +118,7 @@ async fn jitter(rng: &mut Rng) {
 /// cancel-safe: a cancelled `send` has not sent, a cancelled `recv` has not
 /// received) so that two agents sending to each other can never dead-lock by
 /// both sitting in `enqueue_chunk` — head-of-line blocking is not a C20 matter.
-async fn agent(mut ch: AgentChannel, spec: AgentSpec, ticket: Arc<AtomicU64>, log: Log) -> AgentChannel {
+async fn agent(mut ch: AgentChannel, spec: AgentSpec, ticket: Arc<AtomicU64>, log: Log, sent: Arc<Vec<AtomicU64>>) -> AgentChannel {
     let mut rng = Rng::new(spec.seed);
     let mut seq: u32 = 0;
     let mut expecting = spec.peer_sends;
@@ -124,6 +127,13 @@ async fn agent(mut ch: AgentChannel, spec: AgentSpec, ticket: Arc<AtomicU64>, lo
     let patience = Duration::from_millis(3);
     if spec.slow_start_ms > 0 {
         tokio::time::sleep(Duration::from_millis(spec.slow_start_ms)).await;
+    }
+    if let Some((peer, n)) = spec.lazy_until {
+        let t0 = std::time::Instant::now();
+        while sent[peer as usize].load(Ordering::SeqCst) < n as u64 && t0.elapsed() < Duration::from_millis(150) {
+            tokio::time::sleep(Duration::from_millis(1)).await;
+        }
+        tokio::time::sleep(Duration::from_millis(5)).await; // let the pipeline pile up behind the full queue
     }
     while seq < spec.quota || expecting {
         jitter(&mut rng).await;
@@ -137,6 +147,7 @@ async fn agent(mut ch: AgentChannel, spec: AgentSpec, ticket: Arc<AtomicU64>, lo
                 Ok(Ok(())) => {
                     log.lock().unwrap().push((t, merge(json!({"ev": "enq", "t": t, "ch": cj, "fin": fin_flag}), proj)));
                     seq += 1;
+                    sent[spec.idx as usize].fetch_add(1, Ordering::SeqCst);
                 }
                 Ok(Err(e)) => {
                     log.lock().unwrap().push((t, json!({"ev": "enq_err", "t": t, "ch": cj, "err": e.to_string()})));
@@ -206,16 +217,16 @@ struct Topology {
 
 /// Random topology: `npairs` connected pairs (protocol, which side is the client,
 /// who sends) + optionally one orphan sender whose peer never subscribed.
-fn topology(rng: &mut Rng, max_chunks: u32, allow_orphan: bool) -> Topology {
+fn topology(rng: &mut Rng, max_chunks: u32, allow_orphan: bool, pressure: bool) -> Topology {
     let protos: [u16; 8] = [0, 2, 3, 5, 7, 8, 0x7fff, 0x1234];
     let npairs = rng.range(2, 4) as usize;
     let mut used: Vec<(u16, &'static str)> = Vec::new(); // (proto, side of the client)
     let mut agents = Vec::new();
     let mut idx = 0u8;
     let quota = |rng: &mut Rng| -> u32 {
-        match rng.below(4) {
-            0 => max_chunks,
-            1 => rng.range(1, 3) as u32,
+        match rng.below(5) {
+            0 | 1 => max_chunks,
+            2 => rng.range(1, 3) as u32,
             _ => rng.range(1, max_chunks as u64) as u32,
         }
     };
@@ -233,19 +244,28 @@ fn topology(rng: &mut Rng, max_chunks: u32, allow_orphan: bool) -> Topology {
         used.push((p, cs));
         let ss = if cs == "A" { "B" } else { "A" };
         let dir = rng.below(4); // 0: c->s, 1: s->c, 2,3: both
-        let (cq, sq) = match dir {
-            0 => (quota(rng), 0),
-            1 => (0, quota(rng)),
-            _ => (quota(rng), quota(rng)),
+        let (cq, sq) = if pressure && used.len() == 1 {
+            // the first pair of a pressure run: one direction, full quota, receiver starts late
+            if dir % 2 == 0 { (max_chunks, 0) } else { (0, max_chunks) }
+        } else {
+            match dir {
+                0 => (quota(rng), 0),
+                1 => (0, quota(rng)),
+                _ => (quota(rng), quota(rng)),
+            }
         };
-        for (side, role, q, pq) in [(cs, "c", cq, sq), (ss, "s", sq, cq)] {
+        let force_lazy = pressure && used.len() == 1;
+        for (k, (side, role, q, pq)) in [(cs, "c", cq, sq), (ss, "s", sq, cq)].into_iter().enumerate() {
             idx += 1;
+            let peer_idx = if k == 0 { idx + 1 } else { idx - 1 };
             agents.push(AgentSpec {
                 idx,
                 chan: Chan { side, proto: p, role },
                 quota: q,
                 peer_sends: pq > 0,
-                slow_start_ms: if rng.chance(1, 2) { rng.range(20, 60) } else { 0 },
+                slow_start_ms: if rng.chance(1, 3) { rng.range(5, 40) } else { 0 },
+                // the peer sends more than an egress queue holds: sometimes let it all pile up first
+                lazy_until: if pq >= 120 && q < 120 && (force_lazy || rng.chance(2, 3)) { Some((peer_idx, pq.min(160))) } else { None },
                 seed: rng.next_u64(),
             });
         }
@@ -260,6 +280,7 @@ fn topology(rng: &mut Rng, max_chunks: u32, allow_orphan: bool) -> Topology {
             quota: rng.range(1, 20) as u32,
             peer_sends: false,
             slow_start_ms: 0,
+            lazy_until: None,
             seed: rng.next_u64(),
         });
     }
@@ -279,6 +300,7 @@ async fn run_plexers(topo: &Topology, limits: Limits, run: u64) -> Vec<Value> {
     let mut pb = Plexer::new(Bearer::Unix(sb));
     let ticket = Arc::new(AtomicU64::new(1));
     let log: Log = Arc::new(Mutex::new(Vec::new()));
+    let sent: Arc<Vec<AtomicU64>> = Arc::new((0..topo.agents.len() + 2).map(|_| AtomicU64::new(0)).collect());
     let mut chans = Vec::new();
     for a in &topo.agents {
         let plexer = if a.chan.side == "A" { &mut pa } else { &mut pb };
@@ -289,7 +311,7 @@ async fn run_plexers(topo: &Topology, limits: Limits, run: u64) -> Vec<Value> {
     let rb = pb.spawn();
     let mut handles = Vec::new();
     for (a, ch) in topo.agents.iter().zip(chans) {
-        handles.push((a.clone(), tokio::spawn(agent(ch, a.clone(), ticket.clone(), log.clone()))));
+        handles.push((a.clone(), tokio::spawn(agent(ch, a.clone(), ticket.clone(), log.clone(), sent.clone()))));
     }
     let hs: Vec<&tokio::task::JoinHandle<AgentChannel>> = handles.iter().map(|h| &h.1).collect();
     let stalled_run = wait_all(&hs, &log, limits).await;
@@ -443,14 +465,14 @@ pub fn trace(args: &Args) {
         .build()
         .unwrap_or_else(|e| die(&format!("runtime: {e}")));
     for run in 0..runs {
-        let topo = topology(&mut rng, max_chunks, true);
+        let topo = topology(&mut rng, max_chunks, true, run % 3 == 0);
         let evs = rt.block_on(run_plexers(&topo, limits, run));
         for e in evs {
             out.ev(e);
         }
     }
     for run in 0..runs2 {
-        let mut topo = topology(&mut rng, max_chunks, false);
+        let mut topo = topology(&mut rng, max_chunks, false, false);
         // 15-bit protocol ids only: network2 reserves the top bit for the mode
         for a in topo.agents.iter_mut() {
             a.chan.proto &= 0x7fff;
